@@ -1,5 +1,5 @@
 SPECIFICATION Spec
-CONSTANTS MaxN = 3  MaxNT = 1  Ws = {1, 2, 3}  WsBox = {1, 2}  Origins <- OriginsDef  Rotate = FALSE  Pad = 6  Variant = "lower_strict"
+CONSTANTS MaxN = 2  MaxNT = 1  Ws = {1, 2, 3}  WsBox = {1, 2}  Origins = {0}  Rotate = FALSE  Pad = 6  Variant = "lower_strict"
 INVARIANT GridOK
 INVARIANT SnapCorrect
 INVARIANT CentreCorrect
